@@ -76,6 +76,20 @@ def extreme_archives(rng, sc):
     return out
 
 
+def many_decoders(rng, sc):
+    """a dozen members that each need a decoder with a large state (about 2 MiB for -lhx-), plain and from MacLHA archives (where the
+    decoder sits behind the MacBinary pass-through): the heap bound is a constant, so each decoder must be gone before the next"""
+    out = []
+    for tag, osb in (("plain", ord("U")), ("mac", ord("m"))):
+        for meth in (b"-lhx-", b"-lh7-", b"-pm1-", b"-lh1-"):
+            ms = [arc.Member(level=2, method=meth, name=b"", payload=bytes(rng.randrange(256) for _ in range(45)), length=50 + i, crc=0, os=osb,
+                             exts=[arc.x_name(b"m%d" % i)]) for i in range(12)]
+            p = os.path.join(sc, "manydec_%s_%s.lzh" % (meth.strip(b"-").decode(), tag))
+            open(p, "wb").write(b"".join(m.bytes() for m in ms) + b"\0")
+            out.append(p)
+    return out
+
+
 def inputs(rng, sc, tier):
     files = []
     corp = sorted(f for f in glob.glob(os.path.join(V.REPO, "test", "archives", "*", "*")) if os.path.isfile(f) and not f.endswith("README") and os.path.getsize(f) < 60000)
@@ -95,6 +109,8 @@ def inputs(rng, sc, tier):
             files.append((t, "trunc"))
     for f in extreme_archives(rng, sc):
         files.append((f, "extreme"))
+    for f in many_decoders(rng, sc):
+        files.append((f, "manydec"))
     # unstructured and mutated inputs
     for i in range(10 if tier == "quick" else 200):
         b = bytearray(open(rng.choice(base), "rb").read())
@@ -132,7 +148,9 @@ def run(tier, seed, ev):
                 for _ in range(n + 2):
                     ops.append("N")
                     q = rng.random()
-                    if cls == "extreme":
+                    if cls == "manydec":
+                        ops.append(rng.choice(["C", "A4096", "R10", "C"]))
+                    elif cls == "extreme":
                         # decode a bounded number of requested bytes, however large the declared size
                         ops += ["R4096"] * rng.choice([1, 3, 6]) if q < 0.7 else []
                     elif q < 0.3:
@@ -142,7 +160,7 @@ def run(tier, seed, ev):
                     elif q < 0.6:
                         ops += ["R100", "R1"]
                 jobs.append("exec %s %s %s eod - 0 mw%s %s" % (g, f, kind, "" if cls == "extreme" else "b", ",".join(ops)))
-                ev.cls((cls, os.path.basename(f).split("_")[0] if cls != "extreme" else os.path.basename(f), kind))
+                ev.cls((cls, os.path.basename(f).split("_")[0] if cls not in ("extreme", "manydec") else os.path.basename(f), kind))
         res = TR.run_sharded(rdrv, jobs, sc, "w", timeout=900, cpu_limit=40 if tier == "quick" else 900)
         viols, good = TR.validate_all("Trace_Reader", "Trace_Reader_work", res, ev, "C13", xmx="6g")
         for k, f in mcs.items():
